@@ -297,6 +297,40 @@ Additions for data.py (Plate.merge and the one-line helpers of ScreenBase / Plat
                       e.g. an id array that must not hold a NaN) and is bound with `dor`.  Aliasing is not modelled, as for
                       cfg["fields"]: a second reference to an object along the chain goes stale (Plate.merge's `other.screen`).
                       Without the key all these targets are refused as before.
+Additions for the parameter dicts of the posterior samples (core.Theta, models/sparse_combo*.py; C10 links):
+  cfg["strings"]      True: a str constant is the list of its code points, a term of type `pystr` (PyRt; the text is kept as a
+                      comment), and the following string-keyed forms are accepted (all refused without the key):
+    `strdict T`         a dict with STRING keys and values of type T (insertion-ordered `list (pystr * T)`):
+                        `{k1: v1, ..., kn: vn}`   the entries inserted from the left (PyRt.sdict_set: a repeated key keeps its first
+                                                  place and gets the last value), keys and values evaluated in source order; every
+                                                  value is coerced to cfg["strdict_elem"] when that is declared (else to the type of
+                                                  the first value); `**` inside the display is refused
+                        `d[k]` (read)             PyRt.sdict_read, KeyError = Err cfg["key_error"] (refused without that tag)
+                        `k in d` / `k not in d`   d a bound VARIABLE of that type: PyRt.sdict_mem
+                        `for k, v in d.items()`   the entries in insertion order
+                        `{}`                      the empty dict where a `strdict T` is needed
+    `t[i]`              t of a tuple type, i a constant index within it: the projection (fst / snd chain)
+  cfg["type_error"]   tag: `F(k1=e1, ..., **d)` in a cfg["kwcalls"] call, d : strdict T the LAST argument: PyRt.sdict_only - every
+                      key of d must be a declared parameter that the call does not pass itself, else TypeError (Err tag: unexpected
+                      keyword / multiple values) -, then every parameter not passed is read from d (PyRt.sdict_read, a missing
+                      one is the same TypeError) and coerced to its declared type.  A parameter with a default value that the call
+                      does not pass is refused under `**`.  Without the key `**` stays refused.
+  cfg["checked_coerce"]  [(from type, to type, template over {x} denoting a `result to`)]: a downcast that may raise, applied (and
+                      bound where Python evaluates the use) where cfg["coerce"] has no total coercion - a dict value used as an array
+  cfg["dataclass"]    {"owner": type, "bases": [names], "fields": [names in order]}: CHECKED against the class cfg["cls"], not
+                      translated - decorated with exactly `@dataclass`, exactly these bases, its annotated class-level names are
+                      exactly these fields in this order and none has a default, no other class-level statement than methods and
+                      the docstring, none of __init__ / __post_init__ / __new__ / __setattr__ / __getattr__ / __getattribute__; a
+                      cfg["kwcalls"] entry `cls` must take exactly the fields as parameters and is accepted only in a plain
+                      @classmethod whose first parameter is `cls`.  Then `x.__dict__` (x of the owner type) is the dict display
+                      {field: x.field} over the fields in declaration order (getters of cfg["fields"]).  TRUSTED: the bases
+                      contribute no fields, no attribute is added to / deleted from an instance after construction, and the
+                      returned dict is used as a value (it is the live instance dict in Python).
+  cfg["loop_return"]  True (default monad, no return_state / implicit_return): `return e` inside a `for` loop - the loop's state
+                      gains an optional return value (None to start with), `return e` answers (false, .., Some e) through
+                      PyRt.res_fold_brk like a `break`, and after the loop `match ret with Some v => return v | None => <rest> end`,
+                      where `return v` is the enclosing loop's own return when the loops are nested.  Combine with cfg["tail_dup"]
+                      for an `if` that may, but need not, return.  Without the key a return inside a loop is refused as before.
 """
 import ast
 
